@@ -23,10 +23,11 @@ Theorem C03_witness : forall chk n ws,
     hrvh chk h = Ok (v, h) /\ hand_rank_value chk h = Ok v.
 Proof. exact witness_free. Qed.
 
+(* non-vacuity: a seven-card hand meeting the hypotheses (2c As Ks 3d Qs Js Ts, any order) *)
 Example C03_example :
-  hrvh false [layout 0 0; layout 12 3; layout 11 3; layout 1 1; layout 10 3; layout 9 3; layout 8 3]
-  = Ok (1, [layout 12 3; layout 11 3; layout 10 3; layout 9 3; layout 8 3]).
-Proof. vm_compute. reflexivity. Qed.
+  HandN 7 [layout 0 0; layout 12 3; layout 11 3; layout 1 1; layout 10 3; layout 9 3; layout 8 3] /\
+  HandN 6 [layout 12 3; layout 12 2; layout 1 1; layout 10 3; layout 9 3; layout 8 0].
+Proof. split; apply handN_b; vm_compute; reflexivity. Qed.
 
 Print Assumptions C03_five_identity.
 Print Assumptions C03_five.
